@@ -71,7 +71,7 @@ func NewCandidateRelay(config *CandidateRelayConfig) (*CandidateRelay, error) {
 			priorityOverride:   config.Priority,
 			relatedAddress: &CandidateRelatedAddress{
 				Address: config.RelAddr,
-				Port:    config.RelPort,
+				Port:    relatedPort(config.RelAddr, config.RelPort),
 			},
 			relayLocalPreference: relayProtocolPreference(config.RelayProtocol),
 		},
